@@ -27,6 +27,15 @@ impl Driven for D {
          _ => panic!("verif harness: unknown relation {}", rel),
       }
    }
+   fn clear(&mut self, rel: &str) {
+      match rel {
+         "o" => { self.0.o = Default::default(); },
+         "r" => { self.0.r = Default::default(); },
+         "nn" => { self.0.nn = Default::default(); },
+         "eqv" => { self.0.eqv = Default::default(); },
+         _ => panic!("verif harness: unknown relation {}", rel),
+      }
+   }
    fn run(&mut self) { self.0.run(); }
    fn dump(&self) -> Value {
       let mut m: Vec<(String, Value)> = vec![];
